@@ -70,6 +70,41 @@ theorem inv_lay {s s' : State} {l a : Nat} (hi : Inv s) (h : step s (.lay l a) =
             simp only [layIds, List.count_nil] at *
             omega
 
+theorem delta_fromLayout {p p' : Pool} {old : Option Cont} {k d : Nat} {L : Layout} {fill : Int} {c' : Cont}
+    (h : Cont.fromLayout p old k d L fill = .ok (p', c')) (hp : PoolPos p) (hb : mlayBad old L = false) :
+    Delta p p' c'.ownIds (optIds old) ∧ PoolPos p' := by
+  unfold Cont.fromLayout at h
+  split at h
+  · cases h
+  · rename_i p0 hpre
+    have h0 : Delta p p0 [] (optIds old) ∧ PoolPos p0 := by
+      unfold layoutPre at hpre
+      split at hpre
+      · split at hpre
+        · cases hpre
+        · injection hpre with e; subst e; exact ⟨Delta.refl p, hp⟩
+      · rename_i ca
+        have hf : ca.foreign = false := by
+          unfold mlayBad at hb; simp only [Bool.or_eq_false_iff] at hb; exact hb.2
+        have := delta_releaseAll hpre hp
+        simp only [optIds, Cont.ownIds, Cont.owned, hf, Bool.false_eq_true, if_false]
+        exact this
+    obtain ⟨d0, hp0⟩ := h0
+    split at h
+    · cases h
+    · rename_i p1 hinc
+      obtain ⟨d1, hp1⟩ := delta_incrAll hinc hp0
+      split at h
+      · cases h
+      · rename_i ne hne
+        injection h with h; injection h with e1 e2; subst e1; subst e2
+        refine ⟨?_, posAlloc _ _ _ _ hp1⟩
+        intro j
+        have := d0 j; have := d1 j; have := delta_alloc' p1 ne (esz d) (iota fill ne) j
+        simp only [Cont.ownIds, Cont.owned, Cont.empty, idsOf_append, idsOf_cons,
+          idsOf_nil, List.count_append, List.count_nil, Bool.false_eq_true, if_false] at *
+        omega
+
 theorem inv_mlay {s s' : State} {a l kind dt : Nat} {fill : Int} (hi : Inv s)
     (h : step s (.mlay a l kind dt fill) = .ok s') : Inv s' := by
   unfold step at h
@@ -81,61 +116,16 @@ theorem inv_mlay {s s' : State} {a l kind dt : Nat} {fill : Int} (hi : Inv s)
     · cases h
     · rename_i hc
       simp only [decide_eq_true_eq, Nat.not_le] at hc
-      cases hsa : s.slot a with
-      | none =>
-        simp only [hsa] at h
-        split at h
+      split at h
+      · cases h
+      · split at h
         · cases h
-        · split at h
+        · rename_i hbad
+          split at h
           · cases h
-          · split at h
-            · cases h
-            · rename_i p0 hr0
-              have e0 : p0 = s.pool := by
-                split at hr0
-                · cases hr0
-                · injection hr0 with e; exact e.symm
-              subst e0
-              split at h
-              · cases h
-              · rename_i p1 hinc
-                obtain ⟨d1, hp1⟩ := delta_incrAll hinc hi.1
-                split at h
-                · cases h
-                · rename_i ne hne
-                  injection h with h; subst h
-                  have d2 := delta_alloc' p1 ne (esz kind.succ.pred) (iota fill ne)
-                  refine inv_setSlot hi hc ?_ (posAlloc _ _ _ _ hp1)
-                  intro j
-                  have := d1 j; have := delta_alloc' p1 ne (esz dt) (iota fill ne) j
-                  simp only [hsa, optIds, Cont.ownIds, Cont.owned, Cont.empty, idsOf_append, idsOf_cons,
-                    idsOf_nil, List.count_append, List.count_nil, Bool.false_eq_true, if_false] at *
-                  omega
-      | some ca =>
-        simp only [hsa] at h
-        split at h
-        · cases h
-        · split at h
-          · cases h
-          · rename_i hf
-            simp only [Bool.or_eq_true, not_or, Bool.not_eq_true] at hf
-            split at h
-            · cases h
-            · rename_i p0 hr0
-              obtain ⟨d0, hp0⟩ := delta_releaseAll hr0 hi.1
-              split at h
-              · cases h
-              · rename_i p1 hinc
-                obtain ⟨d1, hp1⟩ := delta_incrAll hinc hp0
-                split at h
-                · cases h
-                · rename_i ne hne
-                  injection h with h; subst h
-                  refine inv_setSlot hi hc ?_ (posAlloc _ _ _ _ hp1)
-                  intro j
-                  have := d0 j; have := d1 j; have := delta_alloc' p1 ne (esz ca.dt) (iota fill ne) j
-                  simp only [hsa, hf.2, optIds, Cont.ownIds, Cont.owned, Cont.empty, idsOf_append, idsOf_cons,
-                    idsOf_nil, List.count_append, List.count_nil, Bool.false_eq_true, if_false] at *
-                  omega
+          · rename_i p1 c1 hr
+            injection h with h; subst h
+            obtain ⟨d, hp1⟩ := delta_fromLayout hr hi.1 (by simpa using hbad)
+            exact inv_setSlot hi hc d hp1
 
 end FeatModel.Pool
